@@ -347,7 +347,71 @@ Proof.
       split; [intros e He; rewrite G4' by (rewrite Enxt; exact He); now rewrite Eodev|].
       split; [intros e He; rewrite G5' by (rewrite Enxt; exact He); now rewrite Egin|].
       intros e He; rewrite G6' by (rewrite Enxt; exact He); now rewrite Ecur.
-  - admit_case2.
-Abort.
+  - (* live reservations: new buffer first, then delete the old one *)
+    assert (Hiw : inv [] [p] [] T G s) by (apply inv_incl_W with (W := []); [exact Hi|intros x []]).
+    destruct (make_buffer_spec [p] T G s p d slots Hiw Hp Hod Had Htd) as
+        (s1 & R1 & Hi1 & Hanb & Htnb & Hgnb & Hodnb & Hfr1).
+    erewrite bind_run by exact R1.
+    destruct Hfr1 as (F1 & F2 & F3 & F4 & F5 & F6 & F7 & F8 & F9 & F10 & F11).
+    assert (Hnbp : nxt s <> p) by (intros E; pose proof (inv_lt vkind _ _ _ _ _ _ _ Hi Hp) as Hlt1; rewrite <- E in Hlt1; lia).
+    destruct (F11 p (not_eq_sym Hnbp)) as (P1 & P2 & P3 & P4 & P5).
+    destruct (oinner s p) as [ob|] eqn:Eo.
+    2:{ exfalso. apply (i_pool_buf _ _ _ _ _ _ _ Hi p Hp Ht ltac:(intros [])); [|exact Eo]. left. rewrite Eres. discriminate. }
+    destruct (Hold ob eq_refl) as (A1 & A2 & A3 & A4 & A5).
+    assert (Hobn : ob <> nxt s).
+    { intros E. destruct (i_fresh _ _ _ _ _ _ _ Hi (nxt s) (le_n _)) as (F & _). rewrite E in A1. congruence. }
+    destruct (F11 ob Hobn) as (B1 & B2 & B3 & B4 & B5).
+    destruct (delete_inner_spec (fuel_of s1) [] [ob; nxt s; p] [] T G s1 ob) as (s2 & R2 & Hi2 & Hal2 & Hrest).
+    + apply inv_incl_W with (W := [nxt s; p]); [exact Hi1|]. intros x Hx. now right.
+    + rewrite B1. exact A1.
+    + rewrite B2. exact A2.
+    + rewrite B3. exact A3.
+    + intros [].
+    + now left.
+    + intros q Hq Hqw. rewrite F6.
+      assert (Hqn : q <> nxt s) by (intros ->; apply Hqw; right; now left).
+      destruct (F11 q Hqn) as (Q1 & _). rewrite Q1 in Hq. apply A5; [exact Hq|]. intros ->. apply Hqw. right. right. now left.
+    + unfold fuel_of. lia.
+    + destruct Hrest as (Ehp & Etag & Eodev & Egin & Eoin & Epres & Eps & Evars & Edus & Enxt & Euse & Ecur & Eobuf).
+      assert (R2' : (match Some ob with Some ob0 => run_task fixed (TDelete ob0) | None => fail end) s1 = Some (tt, s2)) by exact R2.
+      erewrite bind_run by exact R2'.
+      assert (Hi2' : inv [] [nxt s; p] [] T G s2).
+      { eapply inv_unW_dead; [exact Hi2|]. rewrite Hal2, Nat.eqb_refl. reflexivity. }
+      assert (Hp2 : alive s2 p = true).
+      { rewrite Hal2. destruct (Nat.eqb_spec p ob) as [E|_]; [congruence|]. rewrite P1. exact Hp. }
+      destruct (resize_finish T G s2 p (nxt s) slots (unit_bytes * Z.of_nat slots)%Z) as (s3 & R3 & Hi3 & Ho3 & Hs3 & Hsame3); try assumption.
+      * rewrite Etag, P2. exact Ht.
+      * rewrite Hal2. destruct (Nat.eqb_spec (nxt s) ob) as [E|_]; [congruence|exact Hanb].
+      * rewrite Etag. exact Htnb.
+      * rewrite Egin. exact Hgnb.
+      * rewrite Eodev, Hodnb, P5. now symmetry.
+      * rewrite Eoin, F6. apply (i_fresh _ _ _ _ _ _ _ Hi (nxt s) (le_n _)).
+      * intros q Hq Eq. rewrite Eoin, F6 in Eq.
+        assert (Hq1 : alive s1 q = true) by (rewrite Hal2 in Hq; destruct (Nat.eqb q ob); [discriminate|exact Hq]).
+        destruct (Nat.eq_dec q (nxt s)) as [->|Hqn].
+        -- destruct (i_fresh _ _ _ _ _ _ _ Hi (nxt s) (le_n _)) as (_ & _ & _ & _ & _ & _ & F & _). congruence.
+        -- destruct (F11 q Hqn) as (Q1 & _). rewrite Q1 in Hq1.
+           destruct (Nat.eq_dec q p) as [->|Hqp]; [congruence|].
+           destruct (i_inner _ _ _ _ _ _ _ Hi q (nxt s) Hq1 ltac:(intros []) Eq) as (_ & C1 & _).
+           destruct (i_fresh _ _ _ _ _ _ _ Hi (nxt s) (le_n _)) as (F & _). congruence.
+      * intros b Eb. rewrite Eoin, F6, Eo in Eb. injection Eb as <-. rewrite Hal2, Nat.eqb_refl. reflexivity.
+      * rewrite Euse, F8. exact Hlive.
+      * intros m Hm. rewrite Epres, F9, Eres. exact (Hpres m Hm).
+      * pose proof Hsame3 as (S1 & S2 & S3 & S4 & S5 & S6 & S7 & S8 & S9 & S10 & S11 & S12 & S13 & S14 & S15 & S16 & S17 & S18).
+        simpl_st.
+        exists s3. split; [exact R3|]. split; [exact Hi3|].
+        split; [rewrite S3; exact Hp2|]. split; [rewrite S2, Etag, P2; exact Ht|].
+        split; [rewrite Ho3; discriminate|]. split; [exact Hs3|].
+        unfold frame_pool. simpl_st.
+        split; [|split; [congruence|split; [congruence|split; [congruence|split; [congruence|split; [congruence|
+                 rewrite S1; simpl_st; rewrite Enxt, F4; lia]]]]]].
+        destruct F1 as (G1' & G2' & G3' & G4' & G5' & G6'). unfold grow. rewrite S1, S2, S3, S6, S15, S9. simpl_st.
+        rewrite Enxt, F4. split; [lia|].
+        split; [intros e He; rewrite Etag; now apply G2'|].
+        split; [intros e He Hae; apply G3'; [exact He|]; rewrite Hal2 in Hae; destruct (Nat.eqb e ob); [discriminate|exact Hae]|].
+        split; [intros e He; rewrite Eodev; now apply G4'|].
+        split; [intros e He; rewrite Egin; now apply G5'|].
+        intros e He; rewrite Ecur; now apply G6'.
+Qed.
 
 End P.
